@@ -1048,6 +1048,21 @@ class Explorer:
             return res
         if isinstance(e, ast.UnaryOp) and isinstance(e.op, ast.Not):
             return [(st, (not t) if exc is None else t, exc) for st, t, exc in self.branch(e.operand, s)]
+        if isinstance(e, ast.Compare) and len(e.ops) == 1 and isinstance(e.ops[0], (ast.In, ast.NotIn)) and \
+                isinstance(e.comparators[0], ast.Call) and isinstance(e.comparators[0].func, ast.Name) and \
+                e.comparators[0].func.id == 'range' and 'range' not in s.env and \
+                1 <= len(e.comparators[0].args) <= 2 and not e.comparators[0].keywords and \
+                isinstance(e.left, (ast.Name, ast.Attribute, ast.Constant)):
+            # x in range(a, b)  for an integer x:  a <= x and x < b
+            ra = e.comparators[0].args
+            lo = ra[0] if len(ra) == 2 else ast.Constant(value=0)
+            hi = ra[-1]
+            conj = ast.BoolOp(op=ast.And(), values=[ast.Compare(left=lo, ops=[ast.LtE()], comparators=[e.left]),
+                                                    ast.Compare(left=e.left, ops=[ast.Lt()], comparators=[hi])])
+            test = conj if isinstance(e.ops[0], ast.In) else ast.UnaryOp(op=ast.Not(), operand=conj)
+            ast.copy_location(test, e)
+            ast.fix_missing_locations(test)
+            return self.branch(test, s)
         if isinstance(e, ast.Compare):
             res = [(s, True, None, None)]
             # evaluate left once, then chain
